@@ -22,7 +22,7 @@ class C20(Prop):
                    'memory-view plumbing and the C compiler are outside the model',
                    'the Windows-only replacements of libc functions (erf approximation) are not the code modelled',
                    'constant ND of the uniform prior is taken from its numeric definition (the gamma-function form is not evaluated)']
-    unproved = ['the 20 translated array kernels (station / location-sample / tensor loops of all likelihoods, ln_prod / ln_combine / ln_multipliers, relative-amplitude loops, scatter binning) are '
+    unproved = ['the 22 translated array kernels (station / location-sample / tensor loops of all likelihoods, ln_prod / ln_combine / ln_multipliers, relative-amplitude loops, scatter binning) are '
                 'evaluated against the Python paths at Float; loop theorems (Props/C20Loops, C20LoopsCombined, C20Relative, C20Binning) cover all station kernels, all seven wrappers, the relative-amplitude loops and binning, not ln_prod / ln_combine / ln_multipliers; the *_gen variants, relative_amplitude_loop and random generation are not '
                 'translated (listed per function in the evidence)',
                 'one-dimensional array reductions c_ln_normalise, c_dkl, c_dkl_uniform are translated (left folds) and evaluated against '
@@ -161,7 +161,7 @@ class C20(Prop):
                 yield {'kind': 'kernel', 'kernel': k, 'args': a}
         # ---- array kernels (nested loops over stations, location samples and tensors; binning)
         na = 10 if tier == 'quick' else 150
-        fams = ['pol', 'polprob', 'ar', 'pol+ar', 'polprob+ar', 'all', 'pol+polprob', 'ln_prod', 'ln_combine', 'ln_multipliers', 'bins', 'rel']
+        fams = ['pol', 'polprob', 'ar', 'pol+ar', 'polprob+ar', 'all', 'pol+polprob', 'ln_prod', 'ln_combine', 'ln_multipliers', 'bins', 'rel', 'tape_batch', 'sdr_batch']
         for fam in fams:
             for i in range(na):
                 c = {'kind': 'array', 'family': fam, 'kernel': 'array:' + fam, 'args': [1.0]}
@@ -187,6 +187,15 @@ class C20(Prop):
                 c['mt'] = [[mts[w][k_] for w in range(nmt)] for k_ in range(6)]
                 c['marg'] = rng.choice([0, 0, 1])
                 c['lsm'] = [0.0] * nloc if rng.random() < 0.4 else [math.log(rng.uniform(0.2, 3.0)) for _ in range(nloc)]
+                if fam in ('tape_batch', 'sdr_batch'):
+                    nb = rng.choice([1, 2, 3, 6, 7])
+                    if fam == 'tape_batch':
+                        c['tape'] = [[rng.uniform(-PI / 6, PI / 6) for _ in range(nb)], [rng.uniform(-PI / 2, PI / 2) for _ in range(nb)],
+                                     [rng.uniform(0, 2 * PI) for _ in range(nb)], [rng.random() for _ in range(nb)], [rng.uniform(-PI / 2, PI / 2) for _ in range(nb)]]
+                    else:
+                        c['sdr'] = [[rng.uniform(0, 2 * PI) for _ in range(nb)], [rng.uniform(0.02, PI / 2 - 0.02) for _ in range(nb)], [rng.uniform(-PI, PI) for _ in range(nb)]]
+                    yield c
+                    continue
                 if fam == 'rel':
                     # relative amplitudes of two events: per-station scale estimate, its combination and the ratio likelihood
                     nst = rng.randint(1, 4)
@@ -326,7 +335,8 @@ class C20(Prop):
                     'ar': 'cprobability.c_amplitude_ratio_ln_pdf', 'pol+ar': 'cprobability.c_polarity_ar_ln_pdf',
                     'polprob+ar': 'cprobability.c_polarity_prob_combined_ln_pdf', 'all': 'cprobability.c_all_combined_ln_pdf',
                     'pol+polprob': 'cprobability.c_combined_pol_ln_pdf', 'ln_prod': 'cprobability.ln_prod', 'ln_combine': 'cprobability.ln_combine',
-                    'ln_multipliers': 'cprobability.ln_multipliers', 'bins': 'cscatangle.get_multipliers', 'rel': 'cprobability.relative_amplitude_ratio_ln_pdf'}
+                    'ln_multipliers': 'cprobability.ln_multipliers', 'bins': 'cscatangle.get_multipliers', 'rel': 'cprobability.relative_amplitude_ratio_ln_pdf',
+                    'tape_batch': 'cconvert.cMultipleTape_MT6', 'sdr_batch': 'cconvert.SDR_SDR'}
 
     ARRAY_CALLEES = ['cprobability.station_polarity_ln_pdf', 'cprobability.station_polarity_probability_ln_pdf', 'cprobability.station_ar_ln_pdf',
                      'cprobability.station_combined_polarity_ar_ln_pdf', 'cprobability.station_combined_polarity_probability_ar_ln_pdf',
@@ -352,6 +362,12 @@ class C20(Prop):
             ang = [[[float(v) for v in np.asarray(r['TakeOffAngle']).flatten()], [float(v) for v in np.asarray(r['Azimuth']).flatten()]] for r in raw]
             return {'angles': ang, 'mult_in': [float(v) for v in rawm], 'v': [float(v) for v in bm],
                     'kept': [[float(v) for v in np.asarray(r['TakeOffAngle']).flatten()] + [float(v) for v in np.asarray(r['Azimuth']).flatten()] for r in binned]}
+        if fam == 'tape_batch':
+            m = np.asarray(self.conv.Tape_MT6(*[np.array(v, dtype=float) for v in case['tape']]), dtype=float)      # 6 x n
+            return {'v': [float(m[j, i]) for i in range(m.shape[1]) for j in range(6)]}
+        if fam == 'sdr_batch':
+            s2, d2, r2 = self.conv.SDR_SDR(*[np.array(v, dtype=float) for v in case['sdr']])
+            return {'v': [float(x) for x in np.asarray(s2).flatten()] + [float(x) for x in np.asarray(d2).flatten()] + [float(x) for x in np.asarray(r2).flatten()]}
         if fam == 'rel':
             lnp, sc, su = pr.relative_amplitude_ratio_ln_pdf(A('x'), A('y'), A('mt'), A('mt2'), A('a1'), A('a2'), A('psx'), A('psy'), _use_c=False)
             # the Python fallback of scale_estimator alone, on the same modelled amplitudes
@@ -414,6 +430,11 @@ class C20(Prop):
             return ['pyxi %s 0 0 0' % k]
         if fam == 'bins':
             return [self.array_request(k, {'angles': impl['angles'], 'bin_size': case['bin'], 'multipliers': impl['mult_in']})]
+        if fam == 'tape_batch':
+            g, d, kp, h, sg = case['tape']
+            return [self.array_request(k, {'M': [0.0] * (6 * len(g)), 'gamma': g, 'delta': d, 'kappa': kp, 'h': h, 'sigma': sg, 'n': len(g)})]
+        if fam == 'sdr_batch':
+            return [self.array_request(k, {'s': case['sdr'][0], 'd': case['sdr'][1], 'r': case['sdr'][2]})]
         if fam == 'rel':
             vals = {'x': case['x'], 'y': case['y'], 'mt1': case['mt'], 'mt2': case['mt2'], 'a1': case['a1'], 'a2': case['a2'], 'psx': case['psx'], 'psy': case['psy']}
             reqs = [self.array_request(k, vals)]
@@ -579,6 +600,18 @@ class C20(Prop):
             return [('translated kernel unavailable: %s' % replies[0][:80], None)]
         got = arrs[0] if arrs else []
         want = impl['v']
+        if fam in ('tape_batch', 'sdr_batch'):
+            flat = [v for a_ in arrs for v in a_]
+            if len(flat) != len(want):
+                return [('%s: array kernel returned %d values, Python path %d' % (self.ARRAY_KERNEL[fam], len(flat), len(want)), None)]
+            nb = len(want) // (6 if fam == 'tape_batch' else 3)
+            for j, (m, p_) in enumerate(zip(flat, want)):
+                ok = close(m, p_, rtol=1e-9, atol=1e-9)
+                if not ok and fam == 'sdr_batch':
+                    ok = abs(((m - p_ + PI) % (2 * PI)) - PI) < 1e-7
+                if not ok:
+                    return [('%s on %d sources: translated loop gives %r, Python path %r at flat index %d' % (self.ARRAY_KERNEL[fam], nb, m, p_, j), None)]
+            return []
         if fam == 'rel':
             nst, nloc, nmt = len(case['x']), len(case['a1'][0]), len(case['mt'][0])
             if len(arrs) != 3 or len(arrs[0]) != nst * nloc * nmt:
